@@ -25,7 +25,7 @@ MARK = 0x1000
 OUTCOMES = ["success", "revert", "panic", "failflag", "stuck"]
 GUARDS = ["eq", "unreach", "mulsat", "mulunsat"]
 REPLIES = ["truth", "unknown", "hang", "slow_over", "crash_empty", "crash_partial", "garbage", "error_line",
-           "rc_nonzero_valid", "spawn_oserror", "core_missing", "core_garbled"]
+           "rc_nonzero_valid", "spawn_oserror", "core_missing", "core_garbled", "core_empty"]
 PANIC_CODES = [0x01, 0x11, 0x12, 0x21]
 VERDICT_OF_EXIT = {0: "PASS", 1: "FAIL", 2: "TIMEOUT", 3: "ERROR", 4: "ERROR", 5: "ERROR"}
 SIG = "check_f(uint256,uint256)"
@@ -214,7 +214,7 @@ class C05Check:
         vec = vector if vector is not None else self.random_vector(ch)
         leaves = vec["leaves"]
         cj, bom = build_contract(leaves, vec["default"])
-        solver = ch.choose(["yices", "z3"], "sw.solver")
+        solver = ch.choose(["yices", "yices", "yices", "yices", "z3"], "sw.solver")
         preempt_k = ch.choose([0, 0, 0, 10], "sw.preempt")
         timeout_s = 60
         panic_codes = set(PANIC_CODES)
@@ -238,9 +238,10 @@ class C05Check:
                 info["param"] = zlib.crc32(repr((vec, leaf_idx)).encode())
                 if r == "slow_over":
                     return "slow"
-                if r in ("core_missing", "core_garbled"):
+                if r in ("core_missing", "core_garbled", "core_empty"):
                     if info["truth"] == "unsat":
-                        return "stdout:unsat\n" if r == "core_missing" else "stdout:unsat\n(<12 <oops\n"
+                        return {"core_missing": "stdout:unsat\n", "core_garbled": "stdout:unsat\n(<12 <oops\n",
+                                "core_empty": "stdout:unsat\n()\n"}[r]
                     return "truth"
                 return r
 
